@@ -275,7 +275,7 @@ def _bool_fn(f, sites):
                 bb = arms.get(1 if x else 0, t["else"])
             elif t["k"] in ("call", "drop", "assert") and isinstance(t.get("t"), int):
                 if t.get("dest") and len(t["dest"]) == 1:
-                    env[t["dest"][0]] = None
+                    env[t["dest"][0]] = pin.get((bb, t["dest"][0]))     # a pinned site may be a boolean call result
                 bb = t["t"]
             else:
                 break
